@@ -265,7 +265,7 @@ def expiry(r, zone):
         time.time = lambda: clock[0]
         for now in INSTANTS:
             for iface in ("wsgi", "asgi"):
-                for expires, age in [(e, 0.0) for e in (None, 0, 1, 3600, 86400)] + [(30, 2.5), (30, 3600.0), (0, 86400.0)]:
+                for expires, age in [(e, 0.0) for e in (None, 0, 1, 3600, 86400, 400000000, 10 ** 9, 2 ** 31)] + [(30, 2.5), (30, 3600.0), (0, 86400.0)]:
                     for max_age in (-1, 0, 5):
                         r.count("evaluations")
                         if zone != "UTC" and expires is not None:
